@@ -351,7 +351,7 @@ class Verdict:
 def split_trace(trace_path, nchunks, workdir):
     with open(trace_path) as f:
         lines = f.readlines()
-    starts = [i for i, ln in enumerate(lines) if ln.startswith('{"ev":"reset"')]
+    starts = [i for i, ln in enumerate(lines) if '"ev":"reset"' in ln]
     if not starts or starts[0] != 0:
         starts = [0] + starts
     per = max(1, (len(starts) + nchunks - 1) // nchunks)
